@@ -196,6 +196,36 @@ def parse_build_amounts(ctx, cls, rule="C01.R3"):
     return n
 
 
+def tunnel_checks(ctx, rule):
+    M = ctx.model
+    # Tunnel
+    fp, pp = own_method_paths(ctx, "Tunnel", "_parse")
+    fb, pb = own_method_paths(ctx, "Tunnel", "_build")
+    ok = len(pp) == 1 and len(pb) == 1
+    if ok:
+        ra = pp[0].of("READALL")
+        sub = pp[0].of("SUB")
+        ok = len(ra) == 1 and len(sub) == 1 and sub[0]["m"] == "parse" and sub[0]["data"] == ("selfcall", "_decode", (ra[0]["res"], CTX, PATH), ())
+        wr = pb[0].of("WRITE")
+        sb = pb[0].of("SUB")
+        ok = ok and len(wr) == 1 and len(sb) == 1 and sb[0]["m"] == "_build" and sb[0]["obj"] == OBJ and \
+            wr[0]["data"] == ("selfcall", "_encode", (("getvalue", sb[0]["stream"]), CTX, PATH), ()) and wr[0]["stream"] == STREAM
+    ctx.ob(rule, fb, ok, "Tunnel: parse decodes the whole stream and parses the result; build builds into a scratch stream, encodes its content and writes it", key="Tunnel chain")
+    fd, pd = own_method_paths(ctx, "Compressed", "_decode")
+    fe, pe = own_method_paths(ctx, "Compressed", "_encode")
+    lib = N.selfattr("lib")
+    data = ("param", "data")
+    dcalls = {(e["func"], e["args"]) for p in pd for e in p.events if e.kind == "CALL"}
+    ecalls = {(e["func"], e["args"]) for p in pe for e in p.events if e.kind == "CALL"}
+    ok = dcalls == {(("attr", lib, "decompress"), (data,)), (("attr", lib, "decode"), (data, N.selfattr("encoding")))} and \
+        {f for f, a in ecalls} == {("attr", lib, "compress"), ("attr", lib, "encode")} and all(a[0] == data for f, a in ecalls)
+    ctx.ob(rule, fe, ok, "Compressed: decompress/decode on parse and compress/encode on build, through the same library object", key="Compressed chain")
+    sel = lambda c: c[0] == "cmp" and c[1] in ("in", "not in") and c[2] == N.selfattr("encoding")
+    gdd = {c for p in pd if p.returns and any(e.kind == "CALL" and e["func"][2] == "decompress" for e in p.events) for c in p.guards() if sel(c)}
+    ge = {c for p in pe if p.returns and any(e.kind == "CALL" and e["func"][2] == "compress" for e in p.events) for c in p.guards() if sel(c)}
+    ctx.ob(rule, fe, gdd == ge and bool(ge), "Compressed selects the codec family with the same condition in both directions", key="Compressed selector")
+
+
 def run(ctx):
     M = ctx.model
     S = summariser(ctx)
@@ -303,32 +333,7 @@ def run(ctx):
     ctx.ob("C01.R4", fe, ok, "StringEncoded: decode(self.encoding) on parse, encode(self.encoding) on build", key="StringEncoded chain")
     short = [p for p in pe if p.returns and p.retval == N.const(b"")]
     ctx.ob("C01.R4", fe, all(N.mk_cmp("==", OBJ, N.const("")) in p.guards() for p in short), "the only build-side shortcut is the empty string (an encoded empty string may carry a BOM)", key="StringEncoded shortcut")
-    # Tunnel
-    fp, pp = own_method_paths(ctx, "Tunnel", "_parse")
-    fb, pb = own_method_paths(ctx, "Tunnel", "_build")
-    ok = len(pp) == 1 and len(pb) == 1
-    if ok:
-        ra = pp[0].of("READALL")
-        sub = pp[0].of("SUB")
-        ok = len(ra) == 1 and len(sub) == 1 and sub[0]["m"] == "parse" and sub[0]["data"] == ("selfcall", "_decode", (ra[0]["res"], CTX, PATH), ())
-        wr = pb[0].of("WRITE")
-        sb = pb[0].of("SUB")
-        ok = ok and len(wr) == 1 and len(sb) == 1 and sb[0]["m"] == "_build" and sb[0]["obj"] == OBJ and \
-            wr[0]["data"] == ("selfcall", "_encode", (("getvalue", sb[0]["stream"]), CTX, PATH), ()) and wr[0]["stream"] == STREAM
-    ctx.ob("C01.R4", fb, ok, "Tunnel: parse decodes the whole stream and parses the result; build builds into a scratch stream, encodes its content and writes it", key="Tunnel chain")
-    fd, pd = own_method_paths(ctx, "Compressed", "_decode")
-    fe, pe = own_method_paths(ctx, "Compressed", "_encode")
-    lib = N.selfattr("lib")
-    data = ("param", "data")
-    dcalls = {(e["func"], e["args"]) for p in pd for e in p.events if e.kind == "CALL"}
-    ecalls = {(e["func"], e["args"]) for p in pe for e in p.events if e.kind == "CALL"}
-    ok = dcalls == {(("attr", lib, "decompress"), (data,)), (("attr", lib, "decode"), (data, N.selfattr("encoding")))} and \
-        {f for f, a in ecalls} == {("attr", lib, "compress"), ("attr", lib, "encode")} and all(a[0] == data for f, a in ecalls)
-    ctx.ob("C01.R4", fe, ok, "Compressed: decompress/decode on parse and compress/encode on build, through the same library object", key="Compressed chain")
-    sel = lambda c: c[0] == "cmp" and c[1] in ("in", "not in") and c[2] == N.selfattr("encoding")
-    gdd = {c for p in pd if p.returns and any(e.kind == "CALL" and e["func"][2] == "decompress" for e in p.events) for c in p.guards() if sel(c)}
-    ge = {c for p in pe if p.returns and any(e.kind == "CALL" and e["func"][2] == "compress" for e in p.events) for c in p.guards() if sel(c)}
-    ctx.ob("C01.R4", fe, gdd == ge and bool(ge), "Compressed selects the codec family with the same condition in both directions", key="Compressed selector")
+    tunnel_checks(ctx, "C01.R4")
     ctx.floor("C01.R4", 16)
 
     # ---------------------------------------------------------------- R5
